@@ -18,7 +18,7 @@ import (
 // group size.
 func c14CountMinus(c *core.Check) {
 	p := c.Prog
-	r := c.Rule("R14", "finite gaps: in the drawing and background layout code every floating point division whose divisor is (count − k), k a positive constant and count a number of repetitions, is dominated by the true side of a comparison count >= k' (k' > k) or count > k'' (k'' >= k)", 5)
+	r := c.Rule("R14", "finite gaps: in the drawing and background layout code every floating point division whose divisor is (count − k), k a positive constant and count a number of repetitions, is dominated by the true side of a comparison count >= k' (k' > k) or count > k'' (k'' >= k)", 4)
 	isCount := func(v ssa.Value) bool {
 		return arithDerives(v, func(v ssa.Value) bool {
 			switch x := v.(type) {
@@ -195,7 +195,7 @@ func c14FiniteAttributes(c *core.Check) {
 // with zero.
 func c14MarkerScale(c *core.Check) {
 	p := c.Prog
-	r := c.Rule("R16", "zero-sized markers are skipped: in (*SVGImage).drawMarkers every division by a scale obtained from resolveTransforms is dominated by a comparison of the resolved markerWidth and one of the resolved markerHeight with zero", 5)
+	r := c.Rule("R16", "zero-sized markers are skipped: in (*SVGImage).drawMarkers every division by a scale obtained from resolveTransforms is dominated by a comparison of the resolved markerWidth and one of the resolved markerHeight with zero", 4)
 	fn := p.Method("svg", "SVGImage", "drawMarkers")
 	if fn == nil {
 		r.Anchor("svg.(*SVGImage).drawMarkers")
@@ -288,7 +288,7 @@ func c14MarkerScale(c *core.Check) {
 // units: the pattern matrix would hold +Inf and NaN).
 func c14GradientBoxDivisors(c *core.Check) {
 	p := c.Prog
-	r := c.Rule("R17", "finite pattern matrices: in svg.gradient.paint every division by the width or the height of the painted box is dominated by a comparison of that value with zero", 4)
+	r := c.Rule("R17", "finite pattern matrices: in svg.gradient.paint every division by the width or the height of the painted box is dominated by a comparison of that value with zero", 2)
 	fn := p.Method("svg", "gradient", "paint")
 	if fn == nil {
 		r.Anchor("svg.gradient.paint")
